@@ -53,6 +53,15 @@ Inductive reach_via (ins : edge -> list node) (targets : list node) : node -> Pr
 | reach_target t : In t targets -> reach_via ins targets t
 | reach_step x y : reach_via ins targets x -> step_via ins x y -> reach_via ins targets y.
 
+(* ... and also through validations: the validation targets of every statement met are scanned
+   as additional roots (a validation edge itself is NOT part of the cycle relation) *)
+Inductive reach_val (targets : list node) : node -> Prop :=
+| rv_target t : In t targets -> reach_val targets t
+| rv_input x y : reach_val targets x -> step_via manifest_ins x y -> reach_val targets y
+| rv_validation x e v :
+    reach_val targets x -> g_producer g x = Some e -> In v (ei_vals (g_edge g e)) ->
+    reach_val targets v.
+
 (* ------------------------------------------------------------------ the dirty flags *)
 (* the inputs that matter for dirtiness: the manifest inputs before the order-only block
    (Edge::is_order_only, with its size_t wrap-around for a stale counter) ... *)
@@ -161,6 +170,12 @@ Definition deps_safe : Prop :=
 
 (* what a statement needs: its manifest inputs (every kind) and its usable recorded deps *)
 Definition need_ins (e : edge) : list node := ei_ins (g_edge g e) ++ valid_deps e.
+
+(* the statements the targets need *)
+Inductive needed (targets : list node) : edge -> Prop :=
+| needed_target t e : In t targets -> g_producer g t = Some e -> needed targets e
+| needed_step e i e' :
+    needed targets e -> In i (need_ins e) -> g_producer g i = Some e' -> needed targets e'.
 
 (* well-formedness the specification theorem needs (true of every parsed manifest):
    outputs know their producer and vice versa; statements with deps are not phony and their order-only
